@@ -8,7 +8,8 @@ import aiu_trace_analyzer.logger as aiulog
 from aiu_trace_analyzer.types import TraceEvent
 from aiu_trace_analyzer.pipeline import AbstractContext, EventPairDetectionContext
 
-from aiu_trace_analyzer.pipeline.rcu_utilization import RCU_pt_util_counter_name, RCU_pt_util_counter_unit
+from aiu_trace_analyzer.pipeline.rcu_utilization import RCU_pt_util_counter_name, RCU_pt_util_counter_unit, \
+    RCU_pt_util_counter_tmp_dur
 from aiu_trace_analyzer.pipeline.tools import PipelineContextTool
 
 
@@ -85,11 +86,12 @@ class StatsExtractionContext(EventPairDetectionContext, PipelineContextTool):
         util = event["args"][RCU_pt_util_counter_unit]
         mean_util, tot_matmul, tot_other = self.total_util.setdefault(event["pid"], (0.0, 0.0, 0.0))
 
+        dur = event[RCU_pt_util_counter_tmp_dur]
         if util > 0.0:
-            tot_matmul += event["dur"]
-            mean_util += (util - mean_util) * (event["dur"] / tot_matmul)   # cumulative weighted average computation
+            tot_matmul += dur
+            mean_util += (util - mean_util) * (dur / tot_matmul)   # cumulative weighted average computation
         else:
-            tot_other += event["dur"]
+            tot_other += dur
 
         self.total_util[event["pid"]] = (mean_util, tot_matmul, tot_other)
 
@@ -281,11 +283,11 @@ def calculate_stats(event: TraceEvent, context: AbstractContext) -> list[TraceEv
         context.update_max_ts(event_pid, (event_start + event_dur))
 
     if event["ph"] == "C" and event["name"] == RCU_pt_util_counter_name:
-        if "dur" not in event:
+        if RCU_pt_util_counter_tmp_dur not in event:
             return [event]  # ignore events that don't have the artificial duration entry
         context.collect_util(event)
-        if "dur" in event and math.isclose(event["args"][RCU_pt_util_counter_unit], 0.0, abs_tol=1e-9):
+        if math.isclose(event["args"][RCU_pt_util_counter_unit], 0.0, abs_tol=1e-9):
             return []
-        event.pop("dur")
+        event.pop(RCU_pt_util_counter_tmp_dur)
 
     return [event]
